@@ -526,8 +526,8 @@ impl<Aux> Vm<'_, Aux> {
                         .push(val)
                         .map_err(|_| ExecutionErrorPayload::Stackoverflow)
                         .map_err(|err| {
-                            // free the object on Stackoverflow
-                            self.runtime_data.free_object(obj.0);
+                            // the object stays in the object list and is reclaimed by the next
+                            // collection or clear
                             payload_to_error(err, *instr_ptr, &self.runtime_data.call_stack)
                         })?;
                 }
@@ -548,8 +548,8 @@ impl<Aux> Vm<'_, Aux> {
                         .push(val)
                         .map_err(|_| ExecutionErrorPayload::Stackoverflow)
                         .map_err(|err| {
-                            // free the object on Stackoverflow
-                            self.runtime_data.free_object(obj.0);
+                            // the object stays in the object list and is reclaimed by the next
+                            // collection or clear
                             payload_to_error(err, *instr_ptr, &self.runtime_data.call_stack)
                         })?;
                 }
@@ -570,8 +570,8 @@ impl<Aux> Vm<'_, Aux> {
                         .push(val)
                         .map_err(|_| ExecutionErrorPayload::Stackoverflow)
                         .map_err(|err| {
-                            // free the object on Stackoverflow
-                            self.runtime_data.free_object(obj.0);
+                            // the object stays in the object list and is reclaimed by the next
+                            // collection or clear
                             payload_to_error(err, *instr_ptr, &self.runtime_data.call_stack)
                         })?;
                 }
